@@ -8,7 +8,6 @@ import KlogV.Lemmas.Totality
 import KlogV.Lemmas.ReportTotal
 import KlogV.Lemmas.Prettify
 import KlogV.Props.C06b
-import KlogV.Props.GoTxt
 namespace KlogV.C06
 
 /-- Shape of the parser's result: records with one text block per record and no errors, or no
